@@ -32,8 +32,15 @@ struct Doc {
 }
 
 fn documents() -> Vec<Doc> {
-  let imports_menu: [(&str, &str); 3] =
-    [("import { A } from Other", "A"), ("import { B } from Other", "B"), ("import { Bar } from Lib", "Bar")];
+  // the last two are stale imports of the very class that is unresolved: from a module that exists
+  // but does not export it, and from a module that does not exist
+  let imports_menu: [(&str, &str); 5] = [
+    ("import { A } from Other", "A"),
+    ("import { B } from Other", "B"),
+    ("import { Bar } from Lib", "Bar"),
+    ("import { Foo } from Other", "Foo"),
+    ("import { Foo } from Missing.Mod", "Foo"),
+  ];
   let bodies: [(&str, &str); 3] = [
     ("expr", "class Main {\n  function f(): int = Foo.bar()\n}\n"),
     ("annot", "class Main {\n  function g(x: Foo): int = 1\n  function f(): int = 2\n}\n"),
@@ -51,6 +58,12 @@ fn documents() -> Vec<Doc> {
     vec![2, 0],
     vec![0, 1, 2],
     vec![2, 1, 0],
+    vec![3],
+    vec![4],
+    vec![0, 3],
+    vec![3, 2],
+    vec![4, 0],
+    vec![2, 4],
   ];
   for order in &orders {
     let n = order.len();
